@@ -20,7 +20,7 @@ type evalVec struct {
 func evalCfg(maxNodes int, fiv string, fuel int, extra ...string) string {
 	lines := []string{"INIT Init", "NEXT Next", "CONSTANTS",
 		fmt.Sprintf("MaxNodes = %d", maxNodes), fmt.Sprintf("ForInVariants = \"%s\"", fiv),
-		"CallLimit = 3", fmt.Sprintf("Fuel = %d", fuel), "NextOutsidePattern = {\"ends-rule\"}",
+		"CallLimit = 50", fmt.Sprintf("Fuel = %d", fuel), "NextOutsidePattern = {\"ends-rule\"}",
 		"INVARIANTS TypeOK FrameBalance BaseAtRuleStart DepthBounded NoEscape OutcomeLegal SigConsumed Vec",
 		"PROPERTIES StopFreezesOutput DoneIsFinal"}
 	return cfgText(append(lines, extra...)...)
